@@ -9,7 +9,7 @@ open BuildIR
 def toOnnxModelIR : List Stmt := [.assign 0, .ifUnknown [.raise] [], .touch 0, .assign 1, .assign 2, .ifUnknown [.touch 1, .touch 3, .assign 4, .ifUnknown [.other] [], .assign 5, .ifUnknown [.raise] [], .touch 2] [], .touch 2, .touch 6, .touch 7, .touch 0, .assign 8, .ifKnown false [.touch 8, .assign 8], .ifKnown true [.check 8], .ret (some 8)]
 
 /-- `spox.build` -/
-def buildIR : List Stmt := [.touch 0, .ifUnknown [.touch 1, .assign 2, .raise] [], .touch 0, .ifUnknown [.touch 1, .assign 2, .raise] [], .ifUnknown [.raise] [], .ifUnknown [.raise] [], .assign 3, .ifUnknown [.touch 3, .assign 3] [], .touch 3, .assignCallee 4, .ifUnknown [.raise] [], .ifUnknown [.assign 5, .assign 6, .touch 4, .touch 6, .touch 4, .check 4] [], .ret (some 4)]
+def buildIR : List Stmt := [.touch 0, .ifUnknown [.touch 1, .assign 2, .raise] [], .touch 0, .ifUnknown [.touch 1, .assign 2, .raise] [], .ifUnknown [.raise] [], .ifUnknown [.raise] [], .assign 3, .ifUnknown [.touch 3, .assign 3] [], .touch 3, .assignCallee 4, .ifUnknown [.raise] [], .ifUnknown [.assign 5, .assign 6, .touch 4, .touch 6, .touch 4, .touch 6, .assign 7, .touch 7, .touch 7, .assign 8, .touch 4, .touch 8, .touch 4, .check 4] [], .ret (some 4)]
 
 /-- number of `.to_onnx_model(...)` calls in `build` -/
 def toModelCalls : Nat := 1
